@@ -363,6 +363,52 @@ func resumeUpload(rnd *rand.Rand, cat *Catalog, r, u string) []UStep {
 	return steps
 }
 
+// asymWrites makes sure the members differ on a few items, then writes those items through
+// the unifier: one member can do it, the other cannot.
+func asymWrites(rnd *rand.Rand, cat *Catalog, hot string) []UStep {
+	var steps []UStep
+	a, b := "m0", "m1"
+	if rnd.Intn(2) == 0 {
+		a, b = b, a
+	}
+	add := func(via string, ops ...Op) {
+		for _, o := range ops {
+			steps = append(steps, UStep{Via: via, Op: o})
+		}
+	}
+	var blobs, mans []string
+	for _, c := range cat.Contents {
+		if c.Man {
+			mans = append(mans, c.ID)
+		} else {
+			blobs = append(blobs, c.ID)
+		}
+	}
+	bl := blobs[rnd.Intn(len(blobs))]
+	x, y := mans[rnd.Intn(len(mans))], mans[rnd.Intn(len(mans))]
+	// a blob only a has: deleting it through the unifier
+	add(a, Op{Op: "PushBlob", R: hot, C: bl, DD: bl, DS: len(cat.byID[bl].Data)})
+	add(b, Op{Op: "DeleteBlob", R: hot, C: bl})
+	add("u", Op{Op: "DeleteBlob", R: hot, C: bl}, Op{Op: "ResolveBlob", R: hot, C: bl})
+	// a manifest only a has
+	add(a, pushWithDeps(cat, hot, "-", x)...)
+	add(b, Op{Op: "DeleteManifest", R: hot, C: x})
+	add("u", Op{Op: "DeleteManifest", R: hot, C: x}, Op{Op: "ResolveManifest", R: hot, C: x})
+	// what a manifest refers to is only in a: pushing it through the unifier
+	deps := pushWithDeps(cat, hot, "-", y)
+	add(a, deps[:len(deps)-1]...)
+	t := "-"
+	if rnd.Intn(2) == 0 {
+		t = cat.Tags[rnd.Intn(len(cat.Tags))]
+	}
+	add("u", Op{Op: "PushManifest", R: hot, T: t, C: y, MT: cat.byID[y].Natural}, Op{Op: "ResolveManifest", R: hot, C: y})
+	// mounting a blob only one member has in the source repository
+	other := cat.Repos[rnd.Intn(len(cat.Repos))]
+	add(b, Op{Op: "PushBlob", R: other, C: bl, DD: bl, DS: len(cat.byID[bl].Data)})
+	add("u", Op{Op: "MountBlob", From: other, R: hot, C: bl})
+	return steps
+}
+
 func viaU(ops []Op) []UStep {
 	steps := make([]UStep, len(ops))
 	for i, o := range ops {
@@ -379,6 +425,7 @@ func genUnifyScenario(rnd *rand.Rand, cat *Catalog, i int) UScenario {
 		sc.Kind = "view"
 		sc.Steps = divergentPrefix(rnd, cat, hot)
 		sc.Steps = append(sc.Steps, readSweep(rnd, cat, hot, i%5 == 0)...)
+		sc.Steps = append(sc.Steps, asymWrites(rnd, cat, hot)...)
 		sc.Steps = append(sc.Steps, viaU(randOps(rnd, cat, 12, "all", true))...)
 		if rnd.Intn(2) == 0 {
 			sc.Steps = append(sc.Steps, resumeUpload(rnd, cat, hot, cat.Uploads[len(cat.Uploads)-1])...)
